@@ -757,3 +757,269 @@ func wantKeys(m map[*types.Var]string) map[string]bool {
 	}
 	return out
 }
+
+// ======== rules added after the second round of seeded changes ========
+
+// C01.8: a send stream that handed out a retransmission still reports that it has more data, unless the answer
+// is computed from everything that can still be pending (buffered frame, unsent data).
+func c01HasMoreAfterRetransmission(c *Ctx) {
+	const R = "C01.8"
+	f := c.fn("", "SendStream", "popNewOrRetransmittedStreamFrame")
+	mgr := c.obj("", "SendStream", "maybeGetRetransmission")
+	nextFrame := c.fld("", "SendStream", "nextFrame")
+	dfw := c.fld("", "SendStream", "dataForWriting")
+	n := 0
+	eachInstr(f, func(in ssa.Instruction) {
+		r, ok := in.(*ssa.Return)
+		if !ok {
+			return
+		}
+		rs := retResults(r)
+		if len(rs) != 3 || !phiClosureHas(rs[0], CallTo(mgr, 0)) {
+			return
+		}
+		// only the return that hands out the retransmission frame itself
+		if IsNil()(rs[0]) {
+			return
+		}
+		n++
+		if isConstBool(rs[2], true) {
+			c.OK(R, "more:a retransmission is handed out with hasMoreData == true", c.P.InstrPos(in), "the stream stays in the framer's active set (a spurious extra call is harmless)")
+			return
+		}
+		atoms := map[string]bool{}
+		termKey(rs[2], 0, atoms)
+		_, a := atoms[nextFrame.Name()]
+		_, b := atoms[dfw.Name()]
+		c.Check(a && b, R, "more:a retransmission is handed out with hasMoreData == true", c.P.InstrPos(in),
+			fmt.Sprintf("hasMoreData is computed from %v: it must be true, or cover the buffered next frame and the unsent data; otherwise the framer drops a stream that still holds bytes and the tail is never sent", sortedSet(atoms)))
+	})
+	c.Floor(R, "returns handing out a retransmission", n, 1)
+}
+
+// C03.6: a remotely reset stream never ends in io.EOF: the frame popped from the queue is marked last only when the
+// stream was not cancelled remotely.
+func c03LastFrameNotAfterReset(c *Ctx) {
+	const R = "C03.6"
+	f := c.fn("", "ReceiveStream", "dequeueNextFrame")
+	last := c.fld("", "ReceiveStream", "currentFrameIsLast")
+	cr := c.fld("", "ReceiveStream", "cancelledRemotely")
+	stores := findInstrs(f, StoresTo(last))
+	c.Floor(R, "stores of currentFrameIsLast in dequeueNextFrame", len(stores), 1)
+	for _, in := range stores {
+		v := in.(*ssa.Store).Val
+		ok, bad := true, ""
+		var walk func(v ssa.Value, d int)
+		seen := map[ssa.Value]bool{}
+		walk = func(v ssa.Value, d int) {
+			if seen[v] || d > 6 {
+				return
+			}
+			seen[v] = true
+			if p, isPhi := v.(*ssa.Phi); isPhi {
+				for _, e := range p.Edges {
+					walk(e, d+1)
+				}
+				return
+			}
+			if isConstBool(v, false) {
+				return
+			}
+			// !cancelledRemotely
+			if u, isU := v.(*ssa.UnOp); isU && u.Op == token.NOT && Load(cr)(u.X) {
+				return
+			}
+			// or a value computed under a dominating !cancelledRemotely edge
+			if dominatedByEdge(in.Block(), BoolTrue(Load(cr)), true) {
+				return
+			}
+			ok, bad = false, v.String()
+		}
+		walk(v, 0)
+		c.Check(ok, R, "last:currentFrameIsLast is false whenever the stream was reset by the peer", c.P.InstrPos(in),
+			"readImpl returns io.EOF once the last frame is drained; after a RESET_STREAM(_AT) the reader must get the reset error instead"+map[bool]string{true: "", false: " — found leaf " + bad}[ok])
+	}
+}
+
+// C04.5 (addition): once reading moved the read position, an effective remote cancellation abandons the flow
+// controller before readImpl can return.
+func c04AbandonInReadLoop(c *Ctx) {
+	const R = "C04.5"
+	ri := c.fn("", "ReceiveStream", "readImpl")
+	readPos := c.fld("", "ReceiveStream", "readPos")
+	abI := c.obj(fc, "StreamFlowController", "Abandon")
+	irce := c.obj("", "ReceiveStream", "isRemoteCancellationEffective")
+	stores := findInstrs(ri, StoresTo(readPos))
+	c.Floor(R, "read position advances in readImpl", len(stores), 1)
+	for _, st := range stores {
+		st := st
+		c.cut(R, "abandon-when-cancellation-becomes-effective", &Cut{Fn: ri, Start: func(i ssa.Instruction) bool { return i == st }, Target: isReturn,
+			Barrier: CallsTo(abI), Edge: EdgeRel(BoolTrue(CallTo(irce, -1)), true)},
+			"after the read position advanced, every return passes either the `cancellation not effective` edge or Abandon(): a reader whose buffer does not end exactly at the reliable size must still return the unread bytes as connection credit")
+	}
+}
+
+// C06.5: the sent-packet history is positional (packets[i] is packet firstPacketNumber+i): a skipped number gets a
+// placeholder exactly when the history is non-empty, the same quantity that decides when firstPacketNumber is re-based.
+func c06PositionalHistory(c *Ctx) {
+	const R = "C06.5"
+	pk := "internal/ackhandler"
+	sk := c.fn(pk, "sentPacketHistory", "SkippedPacket")
+	chk := c.fn(pk, "sentPacketHistory", "checkSequentialPacketNumberUse")
+	packets := c.fld(pk, "sentPacketHistory", "packets")
+	first := c.fld(pk, "sentPacketHistory", "firstPacketNumber")
+	lenPk := LenOf(Load(packets))
+	// re-base of firstPacketNumber only when the history is empty
+	for _, st := range findInstrs(chk, StoresTo(first)) {
+		c.Check(dominatedByEdge(st.Block(), Rel{Op: token.EQL, X: lenPk, Y: ConstI(0)}, false), R, "rebase:firstPacketNumber is re-based only when the history is empty", c.P.InstrPos(st), "positions are relative to the first stored packet")
+	}
+	c.Floor(R, "re-base sites", len(findInstrs(chk, StoresTo(first))), 1)
+	// placeholder for a skipped number exactly when the history is non-empty
+	n := 0
+	eachInstr(sk, func(in ssa.Instruction) {
+		st, ok := in.(*ssa.Store)
+		if !ok || fieldOfAddress(st.Addr) != packets {
+			return
+		}
+		n++
+		okG := dominatedByEdge(st.Block(), Rel{Op: token.GTR, X: lenPk, Y: ConstI(0)}, false) || dominatedByEdge(st.Block(), Rel{Op: token.NEQ, X: lenPk, Y: ConstI(0)}, false)
+		c.Check(okG, R, "placeholder:a skipped packet number is stored as nil iff the history is non-empty", c.P.InstrPos(in),
+			"with a non-empty history and no placeholder every later packet is filed one number too low: an ACK for N then acknowledges the frames of N+1")
+	})
+	c.Floor(R, "placeholder appends in SkippedPacket", n, 1)
+	// and when the history is empty nothing is appended: the guard is the only path to the store (checked above by dominance)
+}
+
+// C05.6: every AEAD of the 1-RTT key schedule is created for the connection's own version.
+func c05AEADVersion(c *Ctx) {
+	const R = "C05.6"
+	create := c.obj(hsk, "", "createAEAD")
+	n := 0
+	for _, cs := range c.P.CallSites(create) {
+		ci, ok := cs.Instr.(ssa.CallInstruction)
+		if !ok || len(ci.Common().Args) != 3 {
+			continue
+		}
+		n++
+		v := ci.Common().Args[2]
+		f, _ := loadedField(stripConv(v))
+		c.Check(f != nil && f.Name() == "version", R, "version:createAEAD is called with the owner's version@"+funcName(rootFn(cs.Fn)), c.P.InstrPos(cs.Instr),
+			"key and IV labels differ between QUIC v1 and v2 (RFC 9369): an AEAD created for another version derives keys no RFC-conformant peer has")
+	}
+	c.Floor(R, "createAEAD call sites", n, 10)
+}
+
+// C05.7: both unpackers restore the bytes behind a short packet number for every length other than 4.
+func c05RestorePNBytes(c *Ctx) {
+	const R = "C05.7"
+	len4 := c.konst("internal/protocol", "PacketNumberLen4")
+	for _, spec := range [][2]string{{"packetUnpacker", "unpackShortHeader"}, {"", "unpackLongHeader"}} {
+		f := c.fn("", spec[0], spec[1])
+		n := 0
+		eachInstr(f, func(in ssa.Instruction) {
+			cl, ok := in.(*ssa.Call)
+			if !ok || builtinName(&cl.Call) != "copy" {
+				return
+			}
+			// the restoring copy: its source is a slice of the saved bytes with a non-constant low bound
+			src, ok := cl.Call.Args[1].(*ssa.Slice)
+			if !ok || src.Low == nil {
+				return
+			}
+			if _, isK := constInt64Of(src.Low); isK {
+				return
+			}
+			// the source is the locally saved copy (make([]byte, 4)), not the packet
+			root := src.X
+			for {
+				if sl, ok := root.(*ssa.Slice); ok {
+					root = sl.X
+					continue
+				}
+				break
+			}
+			switch root.(type) {
+			case *ssa.MakeSlice, *ssa.Alloc:
+			default:
+				return
+			}
+			n++
+			okG := dominatedByEdge(cl.Block(), Rel{Op: token.NEQ, X: Any(), Y: ConstOf(len4)}, false)
+			c.Check(okG, R, "restore:"+spec[1]+" puts back the saved bytes whenever the packet number is shorter than 4 bytes", c.P.InstrPos(in),
+				"header protection is removed assuming a 4-byte packet number; for 1-, 2- and 3-byte numbers the bytes behind it are payload and must be restored, or the AEAD rejects a valid packet")
+		})
+		c.Floor(R, "restoring copies in "+spec[1], n, 1)
+	}
+}
+
+// C08.7: the parser's reused ACK frame is reset before every parse.
+func c08AckFrameReset(c *Ctx) {
+	const R = "C08.7"
+	f := c.fn(wirePkg, "FrameParser", "ParseAckFrame")
+	reset := c.obj(wirePkg, "AckFrame", "Reset")
+	parse := c.obj(wirePkg, "", "parseAckFrame")
+	c.Floor(R, "parseAckFrame calls in ParseAckFrame", countInstr(f, CallsTo(parse)), 1)
+	c.cut(R, "reset:the reused AckFrame is Reset() before it is parsed into", &Cut{Fn: f, Target: CallsTo(parse), Barrier: CallsTo(reset)},
+		"parseAckFrame writes the ECN counts only for type 0x03: without the reset a plain ACK inherits the counts of the previous frame (the result depends on history)")
+	// Reset clears every field of the frame
+	rf := c.fn(wirePkg, "AckFrame", "Reset")
+	st := c.named(wirePkg, "AckFrame").Type().Underlying().(*types.Struct)
+	cleared := map[string]bool{}
+	eachInstr(rf, func(in ssa.Instruction) {
+		if fl := storedField(in); fl != nil {
+			cleared[fl.Name()] = true
+		}
+	})
+	for i := 0; i < st.NumFields(); i++ {
+		c.Check(cleared[st.Field(i).Name()], R, "reset:AckFrame.Reset clears "+st.Field(i).Name(), c.P.Pos(rf.Pos()), "every field of the reused frame is re-initialised")
+	}
+}
+
+// C07.6: the ACK that is sent because the alarm expired is decided on the alarm that was armed (and that
+// GetAlarmTimeout reports to the connection's timer), not on a recomputed time.
+func c07AlarmAgreement(c *Ctx) {
+	const R = "C07.6"
+	pk := "internal/ackhandler"
+	g := c.fn(pk, "appDataReceivedPacketTracker", "GetAckFrame")
+	alarm := c.fld(pk, "appDataReceivedPacketTracker", "ackAlarm")
+	after := c.obj("internal/monotime", "Time", "After")
+	n := 0
+	eachInstr(g, func(in ssa.Instruction) {
+		cl, ok := in.(*ssa.Call)
+		if !ok || calleeObj(&cl.Call) != after {
+			return
+		}
+		n++
+		okA := Load(alarm)(cl.Call.Args[0]) && ParamV("now")(cl.Call.Args[1])
+		c.Check(okA, R, "alarm:GetAckFrame tests the armed alarm against now", c.P.InstrPos(in),
+			"the run-loop timer is set from GetAlarmTimeout() == ackAlarm; when it fires GetAckFrame must see that same alarm as expired, or an ack-eliciting packet is not acknowledged within max_ack_delay")
+	})
+	c.Floor(R, "alarm comparisons in GetAckFrame", n, 1)
+	gt := c.fn(pk, "appDataReceivedPacketTracker", "GetAlarmTimeout")
+	okG := false
+	eachInstr(gt, func(in ssa.Instruction) {
+		if r, ok := in.(*ssa.Return); ok && Load(alarm)(retResults(r)[0]) {
+			okG = true
+		}
+	})
+	c.Check(okG, R, "alarm:GetAlarmTimeout reports ackAlarm", c.P.Pos(gt.Pos()), "the timer and the expiry test use the same field")
+}
+
+// C09.9: a randomly split range has at least one byte per frame: the frame count is clamped to the range's length.
+func c09SplitClamp(c *Ctx) {
+	const R = "C09.9"
+	f := c.fn("", "", "splitRange")
+	length := BinV(token.SUB, ParamV("end"), ParamV("start"))
+	n := 0
+	eachInstr(f, func(in ssa.Instruction) {
+		ms, ok := in.(*ssa.MakeSlice)
+		if !ok {
+			return
+		}
+		n++
+		// the capacity is the number of frames
+		c.Check(boundedBy(ms.Cap, length, ms.Block(), 0), R, "clamp:number of frames <= number of bytes in the range", c.P.InstrPos(in),
+			"each frame needs at least one byte: an unclamped count makes the remaining-length draw non-positive (panic in crypto/rand) or produces CRYPTO frames outside the assigned range")
+	})
+	c.Floor(R, "frame list allocations in splitRange", n, 1)
+}
